@@ -724,6 +724,14 @@ impl<'a, W: Write> YamlSerializer<'a, W> {
         Ok(())
     }
 
+    /// A node written inline after "- " starts two columns right of the dash. Its children are
+    /// indented by whole steps counted from the dash; with a step of 1 that is the very column
+    /// the node itself starts in, so they need one more level.
+    #[inline]
+    fn narrow_step_extra(&self) -> usize {
+        usize::from(self.indent_step == 1)
+    }
+
     /// Ensure indentation is written if we are at the start of a line.
     /// Internal: called by most emitters before writing tokens.
     #[inline]
@@ -1501,7 +1509,9 @@ impl<'a, 'b, W: Write> Serializer for &'a mut YamlSerializer<'b, W> {
         // value indents under the variant label rather than aligning with the list indentation.
         // SeqSer stores the dash's indentation depth in `after_dash_depth`.
         if let Some(d) = self.after_dash_depth.take() {
-            let prev_map_depth = self.current_map_depth.replace(d + 1);
+            let prev_map_depth = self
+                .current_map_depth
+                .replace(d + 1 + self.narrow_step_extra());
             let res = value.serialize(&mut *self);
             self.current_map_depth = prev_map_depth;
             res
@@ -1704,7 +1714,7 @@ impl<'a, 'b, W: Write> Serializer for &'a mut YamlSerializer<'b, W> {
         let mut depth_next = self.depth + 1;
         // After a list dash ("- Variant:") the fields go two levels under the dash.
         if let Some(d) = self.after_dash_depth.take() {
-            depth_next = d + 2;
+            depth_next = d + 2 + self.narrow_step_extra();
             self.pending_inline_map = false;
         }
         Ok(TupleVariantSer {
@@ -1885,7 +1895,7 @@ impl<'a, 'b, W: Write> Serializer for &'a mut YamlSerializer<'b, W> {
         let mut depth_next = self.depth + 1;
         // If this variant follows a list dash, indent two levels under the dash (one for the element, one for the mapping).
         if let Some(d) = self.after_dash_depth.take() {
-            depth_next = d + 2;
+            depth_next = d + 2 + self.narrow_step_extra();
             self.pending_inline_map = false;
         }
         Ok(StructVariantSer {
@@ -2496,7 +2506,14 @@ impl<'a, 'b, W: Write> SerializeMap for MapSer<'a, 'b, W> {
                 self.ser.at_line_start = false;
                 self.ser.depth = self.depth;
             }
-            let prev_map_depth = self.ser.current_map_depth.replace(self.depth);
+            // Entries aligned under a first key written after "- " sit two columns right of
+            // the dash whatever the step; their values have to be deeper than that.
+            let value_base = if self.align_after_dash {
+                self.depth + self.ser.narrow_step_extra()
+            } else {
+                self.depth
+            };
+            let prev_map_depth = self.ser.current_map_depth.replace(value_base);
             let result = value.serialize(&mut *self.ser);
             self.ser.current_map_depth = prev_map_depth;
             // Always restore the parent's pending_inline_map to avoid leaking inline hints
